@@ -377,3 +377,37 @@ def bx_replay(path):
         return 2, err
     rc, out, err, wall, to = _sh([exe, 'replay', path], 600)
     return rc, out + err
+
+
+def run_bx_history(name, maxlen):
+    """bounded-exhaustive request sequences against the real generic builder, compared with the
+    property's own set algebra (stand-in for the two generic append strategies, and an end-to-end
+    cross-check of the builder contracts proved per function by Verus)"""
+    r = UnitResult(name, 'bx (native bounded-exhaustive request sequences against the builder state machine)')
+    t0 = time.time()
+    exe, err = build_bx()
+    if exe is None:
+        r.status, r.reason = INCONCLUSIVE, 'bx does not build against the current tree: %s' % err
+        return r
+    cmd = [exe, 'builder-history', '--max-len', str(maxlen)]
+    r.cmd = ' '.join(cmd)
+    rc, out, err, wall, to = _sh(cmd, 3600)
+    r.wall_s = time.time() - t0
+    try:
+        j = json.loads(out)
+    except Exception:
+        r.status, r.reason = INCONCLUSIVE, 'bx builder-history rc=%s: %s' % (rc, (out + err)[-800:])
+        return r
+    r.obligations = j['evaluations']
+    r.discharged = j['evaluations'] - (1 if j.get('violation') else 0)
+    r.bounded = ('BOUNDED: every sequence of <= %d requests over {add a|b|c, remove id 0..3, close with generic append_data, close with generic '
+                 'append_data_reverse}; after every request the observable state (current data, variants, identities, lookups by name) is compared with '
+                 'last - removed + added' % maxlen)
+    r.extra = {'evaluations': j['evaluations'], 'distinct_nontrivial': j['evaluations'], 'samples': [{'max_len': maxlen, 'alphabet': 'add a|b|c, remove 0..3, close, close_reverse'}]}
+    if j.get('violation'):
+        v = j['violation']
+        r.status = VIOLATION
+        r.reason = 'a request sequence violates the builder contract'
+        r.failures.append({'function': 'builder history', 'message': '; '.join(v['clauses'][:3]), 'history': v['history'], 'clauses': v['clauses'],
+                           'tags': ['C12'], 'props': ['C12', 'C03']})
+    return r
